@@ -28,7 +28,7 @@ class C02(PropBase):
     lean_modules = ["SqModel.Props.C02", "SqModel.Proofs.BridgeBits"]
     extractors = ["trans_bits", "crc"]
     rule = ("q msg on lines of every digit count 0..64, random and valid frames of every DF 0..31 at both lengths, with and "
-            "without 12-digit timestamp, under 9 decoration schemes (case, separators, Unicode digits, non-UTF-8 bytes); "
+            "without 12-digit timestamp, under 9 decoration schemes (case, separators, Unicode digits, non-UTF-8 bytes) and with every single non-hex byte value 0..255 inserted (in valid frames, in frames one digit short, after an 11-digit time stamp); "
             "one-line segments for table equality of decorated vs plain lines. Non-trivial = accepted, or rejected for a "
             "reason other than the digit count; distinct by (digit string, decoration).")
     assumptions = ["char::to_digit(16) accepts ASCII only (exercised with full-width and Arabic-Indic digits)"]
@@ -42,6 +42,21 @@ class C02(PropBase):
                 dec = rng.randrange(len(DECOR) + 1)
                 b = decorate_bytes(rng, d) if dec == len(DECOR) else DECOR[dec](rng, d).encode("utf-8")
                 out.append((b, f"rand{n}"))
+        # every byte value that is not an ASCII hex digit (nor the line feed), one at a time: inside a valid frame it must
+        # change nothing; next to a frame that is one digit short (or carries one digit too many) it must not complete it
+        hexb = set(b"0123456789abcdefABCDEF")
+        for v in range(256):
+            if v in hexb or v == 10:
+                continue
+            for fr in (F.df11(5, 0x4B0000 + v, 0), F.df17(5, 0x4B0000 + v, F.me_ident(4, 3, F.callsign_codes("BYTE%03d" % v)))):
+                raw = fr.encode()
+                for pos in sorted({0, 1, len(raw) // 2, len(raw) - 1, len(raw), rng.randrange(len(raw) + 1)}):
+                    out.append((raw[:pos] + bytes([v]) + raw[pos:], f"byte{v:02x}"))
+                cut = rng.randrange(len(raw))
+                short = raw[:cut] + raw[cut + 1:]                     # one digit removed
+                p2 = rng.randrange(len(short) + 1)
+                out.append((short[:p2] + bytes([v]) + short[p2:], f"byte{v:02x}/short"))
+                out.append((b"@" + b"0123456789A" + bytes([v]) + raw + b";", f"byte{v:02x}/stamp"))   # 11-digit stamp + the byte
         reps = 6 if tier == "quick" else 60
         for df in range(32):
             for _ in range(reps):
